@@ -10,6 +10,7 @@ var (
 	uuidRE     = regexp.MustCompile(`^[0-9a-fA-F]{8}-[0-9a-fA-F]{4}-[0-9a-fA-F]{4}-[0-9a-fA-F]{4}-[0-9a-fA-F]{12}$`)
 	datetimeRE = regexp.MustCompile(`^(\d{4})-(\d{2})-(\d{2})T(\d{2}):(\d{2}):(\d{2})(\.\d+)?(Z|[+-](\d{2}):(\d{2}))$`)
 	hexish     = regexp.MustCompile(`^[0-9a-fA-F-]*$`)
+	hex32      = regexp.MustCompile(`^[0-9a-fA-F]{32}$`)
 )
 
 func daysIn(y, m int) int {
@@ -87,14 +88,17 @@ func formatOK(name, s string) Verdict {
 		if uuidRE.MatchString(s) {
 			return Accept
 		}
-		if len(s) != 36 && hexish.MatchString(s) && len(s) != 32 {
-			return Reject
+		// well-known alternative spellings: whether they are admitted is not fixed
+		if len(s) == 38 && s[0] == '{' && s[37] == '}' && uuidRE.MatchString(s[1:37]) {
+			return Unspecified
 		}
-		if len(s) == 36 && !uuidRE.MatchString(s) {
-			// wrong hyphen placement or non-hex
-			return Reject
+		if len(s) == 45 && (s[:9] == "urn:uuid:" || s[:9] == "URN:UUID:") && uuidRE.MatchString(s[9:]) {
+			return Unspecified
 		}
-		return Unspecified
+		if len(s) == 32 && hex32.MatchString(s) {
+			return Unspecified
+		}
+		return Reject
 	}
 	return Unspecified // email, uri: curated probes decide in the check itself
 }
